@@ -56,7 +56,7 @@ pub fn reset() {
 }
 
 /// Maximum number of loop iterations per call site between two `reset_steps`.
-pub const STEP_BOUND: u64 = 1 << 22;
+pub const STEP_BOUND: u64 = 1 << 16;
 
 #[cfg(feature = "std")]
 std::thread_local! {
